@@ -303,6 +303,26 @@ theorem untwist_h0 {K : Type} [Field K] (o : Ops K) (i : In K) :
     X1s_untwisted_h0 o i = i.X1s ∧ X1c_untwisted_h0 o i = i.X1c ∧
     Y1s_untwisted_h0 o i = Y1s o i ∧ Y1c_untwisted_h0 o i = Y1c o i := ⟨rfl, rfl, rfl, rfl⟩
 
+set_option linter.unnecessarySeqFocus false in
+/-- helicity ≠ 0, closed form: with `a = −helicity·nfp·varphi` the untwisted pairs are the twisted ones rotated by
+`a`.  Proved up to ring normalisation of the angle and the parities `cos(−x) = cos x`, `sin(−x) = −sin x`, so it does not
+matter whether the source evaluates the trigonometric functions at `a` or at `−a`. -/
+theorem untwist_hN_closed (o : Ops ℝ) (i : In ℝ) (hcos : ∀ x, o.cos x = Real.cos x) (hsin : ∀ x, o.sin x = Real.sin x) :
+    let a := -i.helicity * i.nfp * i.varphi
+    X1s_untwisted_hN o i = i.X1s * Real.cos a + i.X1c * Real.sin a ∧
+    X1c_untwisted_hN o i = i.X1c * Real.cos a - i.X1s * Real.sin a ∧
+    Y1s_untwisted_hN o i = Y1s o i * Real.cos a + Y1c o i * Real.sin a ∧
+    Y1c_untwisted_hN o i = Y1c o i * Real.cos a - Y1s o i * Real.sin a := by
+  intro a
+  simp only [a, X1c_untwisted_hN, X1s_untwisted_hN, Y1c_untwisted_hN, Y1s_untwisted_hN, qsc_local, hcos, hsin]
+  generalize Y1c o i = y1c
+  generalize Y1s o i = y1s
+  refine ⟨?_, ?_, ?_, ?_⟩ <;>
+    first
+      | rfl
+      | ring1
+      | ((try ring_nf) <;> (try simp only [Real.cos_neg, Real.sin_neg]) <;> (try ring1))
+
 /-- helicity ≠ 0: with `a = −helicity·nfp·varphi`, the untwisted coefficients describe the **same** first-order
 surface in the rotated poloidal angle: for every `θ`,
 `X1c_u cos θ + X1s_u sin θ = X1c cos(θ − a) + X1s sin(θ − a)`, and likewise for `Y1`. -/
@@ -314,7 +334,8 @@ theorem untwist_same_surface_1 (o : Ops ℝ) (i : In ℝ) (hcos : ∀ x, o.cos x
     Y1c_untwisted_hN o i * Real.cos θ + Y1s_untwisted_hN o i * Real.sin θ
         = Y1c o i * Real.cos (θ - a) + Y1s o i * Real.sin (θ - a) := by
   intro a
-  simp only [X1c_untwisted_hN, X1s_untwisted_hN, Y1c_untwisted_hN, Y1s_untwisted_hN, hcos, hsin, Real.cos_sub, Real.sin_sub]
+  obtain ⟨h1, h2, h3, h4⟩ := untwist_hN_closed o i hcos hsin
+  rw [h1, h2, h3, h4, Real.cos_sub, Real.sin_sub]
   generalize Y1c o i = y1c
   generalize Y1s o i = y1s
   constructor <;> ring
@@ -326,7 +347,8 @@ theorem untwist_invariants (o : Ops ℝ) (i : In ℝ) (hcos : ∀ x, o.cos x = R
     Y1s_untwisted_hN o i ^ 2 + Y1c_untwisted_hN o i ^ 2 = Y1s o i ^ 2 + Y1c o i ^ 2 ∧
     X1s_untwisted_hN o i * Y1c_untwisted_hN o i - X1c_untwisted_hN o i * Y1s_untwisted_hN o i
       = i.X1s * Y1c o i - i.X1c * Y1s o i := by
-  simp only [X1c_untwisted_hN, X1s_untwisted_hN, Y1c_untwisted_hN, Y1s_untwisted_hN, hcos, hsin]
+  obtain ⟨h1, h2, h3, h4⟩ := untwist_hN_closed o i hcos hsin
+  rw [h1, h2, h3, h4]
   generalize Y1c o i = y1c
   generalize Y1s o i = y1s
   have h := Real.sin_sq_add_cos_sq (-i.helicity * i.nfp * i.varphi)
